@@ -423,14 +423,19 @@ pub struct Obs {
     pub ut: Duration,
     pub pr: u64,
     pub dest: Option<Vec<u8>>,
+    pub idle: Option<(usize, u64)>,
 }
 impl Obs {
     pub fn line(&self) -> String {
         let p: Vec<String> = self.pdus.iter().map(|(d, p)| pdu_out_text(d, p)).collect();
         let i: Vec<String> = self.inds.iter().map(ind_text).collect();
         format!(
-            "{} P[{}] I[{}] st={} hp={} ut={} pr={} D={}",
+            "{}{} P[{}] I[{}] st={} hp={} ut={} pr={} D={}",
             self.res,
+            match self.idle {
+                Some((it, ms)) => format!(" idle={it}/{ms}"),
+                None => String::new(),
+            },
             p.join(";"),
             i.join(";"),
             state_ch(self.st),
@@ -517,6 +522,8 @@ pub fn run(ops: &str, is_recv: bool, out: &mut impl Write, orc: &mut impl Write)
                     continue;
                 }
                 let t: Vec<&str> = l.split_whitespace().collect();
+                let mut idle_pdus: Vec<(VariableID, PDU)> = Vec::new();
+                let mut idle_info: Option<(usize, u64)> = None;
                 let res: String = match t[0] {
                     "ADV" => {
                         tokio::time::advance(Duration::from_millis(t[1].parse().unwrap())).await;
@@ -591,11 +598,54 @@ pub fn run(ops: &str, is_recv: bool, out: &mut impl Write, orc: &mut impl Write)
                         }
                         "ok".into()
                     }
+                    "IDLE" => {
+                        // the select! loop left alone (no command arrives): send arm while there is something to
+                        // send, else sleep until the next deadline and run the timeout arm; at most k iterations
+                        let k: usize = t[1].parse().unwrap();
+                        let mut it = 0usize;
+                        let mut r = "ok".to_string();
+                        let t_begin = tokio::time::Instant::now();
+                        while it < k {
+                            let (st0, hp0, ut0) = match &tx {
+                                Tx::R(x) => (x.verif_get_state(), x.verif_has_pdu_to_send(), x.verif_until_timeout()),
+                                Tx::S(x) => (x.verif_get_state(), x.verif_has_pdu_to_send(), x.verif_until_timeout()),
+                            };
+                            if st0 == TransactionState::Terminated {
+                                break;
+                            }
+                            if hp0 {
+                                let permit = pdu_tx.reserve().await.unwrap();
+                                r = res_text(catch_unwind(AssertUnwindSafe(|| match &mut tx {
+                                    Tx::R(x) => x.verif_send_pdu(permit),
+                                    Tx::S(x) => x.verif_send_pdu(permit),
+                                })));
+                            } else if ut0 != Duration::MAX {
+                                tokio::time::advance(ut0).await;
+                                r = res_text(catch_unwind(AssertUnwindSafe(|| match &mut tx {
+                                    Tx::R(x) => x.handle_timeout(),
+                                    Tx::S(x) => x.handle_timeout(),
+                                })));
+                            } else {
+                                break; // nothing to send, no timer: the loop would wait for a command forever
+                            }
+                            it += 1;
+                            if r != "ok" {
+                                break;
+                            }
+                            // keep the PDU channel from filling up
+                            while let Ok(p) = pdu_rx.try_recv() {
+                                idle_pdus.push(p);
+                            }
+                        }
+                        idle_info = Some((it, t_begin.elapsed().as_millis() as u64));
+                        r
+                    }
                     other => panic!("tx op {other}"),
                 };
                 let mut inds = Vec::new();
                 drain(&mut ind_rx, &mut inds).await;
                 let mut pdus = Vec::new();
+                pdus.append(&mut idle_pdus);
                 while let Ok(p) = pdu_rx.try_recv() {
                     pdus.push(p);
                 }
@@ -604,7 +654,7 @@ pub fn run(ops: &str, is_recv: bool, out: &mut impl Write, orc: &mut impl Write)
                     Tx::S(x) => (x.verif_get_state(), x.verif_has_pdu_to_send(), x.verif_until_timeout(), x.verif_progress()),
                 };
                 let dest = if is_recv { std::fs::read(root.join(&cfg.dst)).ok() } else { None };
-                let obs = Obs { res: res.clone(), pdus, inds, st, hp, ut, pr, dest };
+                let obs = Obs { res: res.clone(), pdus, inds, st, hp, ut, pr, dest, idle: idle_info };
                 writeln!(out, "{}", obs.line()).unwrap();
                 oracle.step(k, l, &obs, orc);
                 // the transaction's select! loop ends on a fatal error and when the state is Terminated
